@@ -4,6 +4,7 @@ import Pycoin.Proofs.SignEval
 import Pycoin.Proofs.SignWrap
 import Pycoin.Proofs.SignState
 import Pycoin.Proofs.SignParse
+import Pycoin.Proofs.SignExisting
 import Pycoin.Proofs.SignLink
 import Pycoin.Proofs.SignOrder
 import Pycoin.Proofs.SignKeychain
@@ -30,8 +31,13 @@ C05 — property theorems about the signer model (`Model/Sign.lean`).
 * `C05_ecdsa_chk_accepts`: the emitted signature satisfies `CheckSig` instantiated with ECDSA-verify of the digest the model
   computes (C04's `Model/Sighash.lean` in the driver);
 * `C05_multisig_loop_accepts`: the CHECKMULTISIG matching loop accepts signatures laid out in key order (any `m ≤ n`);
-* `C05_partial_order_independent_partial`, `C05_partial_placeholders`, `C05_placeholder_invalid_partial`: partial multisig
-  signing;
+* `C05_multisig_end_to_end`: for each of the four wrappers (`Wrap`) and every 1 ≤ m ≤ n ≤ 20, the model's solver output for a
+  fresh input whose lookup holds at least m of the listed secrets is accepted by `VerifyScript` with `CheckSig` = ECDSA-verify
+  (C01) of the C04 digest; `C05_multisig_wrong_key_rejected_partial`: a signature made with a wrong secret leaves it rejected;
+* `C05_partial_passes_partial`, `C05_partial_order_independent_passes_partial`: any sequence of signing passes on the model ends with
+  `min m (distinct listed keys supplied)` signatures and `m −` that many placeholders, is accepted exactly when m distinct
+  listed keys were supplied, independently of the order of the passes (under two explicit unforgeability-style hypotheses);
+  `C05_partial_order_independent_partial`, `C05_partial_placeholders`, `C05_placeholder_invalid_partial`: the combinatorial core;
 * `C05_sign_frame`, `C05_sign_frame_empty`: nothing but script and witness of the chosen, not yet valid inputs changes.
 -/
 namespace Pycoin.Sign
@@ -1353,6 +1359,85 @@ theorem C05_multisig_wrong_key_rejected_partial (chk : PChk) (w : Wrap) (dig : D
   refine ⟨bad, mem_signedList.mpr ⟨?_, hbad⟩, rfl⟩
   simp only [passSet, Bool.false_or, List.contains_iff_mem] at hbad
   exact (mem_picks hbad).1
+
+/-- **What the next pass reads is what this pass wrote.**  `existing_script` of `Solver.solve` — the data pushes of the scriptSig,
+or the witness when there is one — taken from the spend `Solver.solve` builds out of the solved items, is those items followed
+by the redeem / witness script: the list `runPasses` hands from one pass to the next in `C05_partial_passes_partial`. -/
+theorem C05_next_pass_reads_solution (w : Wrap) (ms : Bytes) (items : List Bytes)
+    (hitems : ∀ d ∈ items, d.length = 0 ∨ (2 ≤ d.length ∧ d.length ≤ 75)) (h2 : 2 ≤ ms.length) (h : ms.length ≤ 65535) :
+    existingScript (w.scriptSig ms items) (w.wit ms items) = .ok (items ++ w.extra ms) := by
+  have hlt : ∀ d ∈ items, d.length < 2 ^ 32 := fun d hd => by rcases hitems d hd with h | h <;> omega
+  cases w with
+  | bare =>
+    have := existingScript_pushAll items hlt _ (pushAll_direct items hitems)
+    simpa [Wrap.scriptSig, Wrap.wit, Wrap.witness, Wrap.extra] using this
+  | p2sh =>
+    have := existingScript_pushAll (items ++ [ms]) (by
+      intro d hd
+      rcases List.mem_append.mp hd with hd | hd
+      · exact hlt d hd
+      · simp at hd; subst hd; omega) _ (by
+        rw [List.map_append]; exact pushAll_items_redeem items ms hitems h2 h)
+    simpa [Wrap.scriptSig, Wrap.wit, Wrap.witness, Wrap.extra] using this
+  | p2wsh =>
+    exact existingScript_witness _ _ (by simp [Wrap.wit, Wrap.witness])
+  | p2shP2wsh =>
+    exact existingScript_witness _ _ (by simp [Wrap.wit, Wrap.witness])
+
+/-! ### the hypotheses are satisfiable: a 2-of-3 input evaluated on the model (tests by evaluation, not theorems) -/
+
+section nonvacuity
+
+def exKeyOf (d : Int) : Option (Bytes × Entry) :=
+  match mulG k1 0 d with
+  | .ok (some (x, y)) => (match publicPairToSec x y true with | .ok k => some (k, ⟨d, x, y, true⟩) | _ => none)
+  | _ => none
+
+def exKeys : List Bytes := ([11, 22, 33] : List Int).filterMap (fun d => (exKeyOf d).map (·.1))
+def exZ : Int := 0x1234567890abcdef1234567890abcdef
+def exDig : Digest := fun ht => if ht = 1 then some exZ else none
+def exLookup (ds : List Int) : Lookup := fun h => ((ds.filterMap exKeyOf).find? (fun p => Hash.hash160 p.1 = h)).map (·.2)
+def exChk : PChk := ecdsaChk secp256k1Crypto (fun _ _ => exDig)
+
+/-- passes with the lookups holding the secrets `order`, over a fresh 2-of-3 input wrapped as `w` -/
+def exRun (w : Wrap) (order : List (List Int)) : Except Sign.Err (List Bytes) :=
+  runPasses secp256k1Crypto exDig 1 Gen.Sign.defaultPlaceholder 2 exKeys (w.extra (multisigScriptN 2 exKeys)) (order.map exLookup) []
+
+def exValid (w : Wrap) (ex : Except Sign.Err (List Bytes)) : Bool :=
+  match ex with
+  | .ok blobs =>
+    let items := blobs.take 3
+    verifyScript exChk (w.scriptSig (multisigScriptN 2 exKeys) items) (w.spk (multisigScriptN 2 exKeys))
+      (w.wit (multisigScriptN 2 exKeys) items) standardFlags ⟨1, 0, 0xffffffff⟩ == none
+  | .error _ => false
+
+/-- `NoCross` and `PlaceholderUnverifiable` on the example: the signature of one secret verifies for its own key and for neither
+of the other two; the placeholder for none -/
+def exCross : Bool :=
+  ([11, 22, 33] : List Int).all fun di =>
+    match secp256k1Crypto.sign di exZ with
+    | .ok (r, s) =>
+      ([11, 22, 33] : List Int).all fun dj =>
+        match mulG k1 0 dj with
+        | .ok Q =>
+          (match secp256k1Crypto.verify Q exZ r (lowS secp256k1Crypto.order s) with | .ok b => b == (di == dj) | _ => false) &&
+          (match secp256k1Crypto.verify Q exZ ((secp256k1N - 1 : Nat) : Int) (((secp256k1N - 1) / 2 : Nat) : Int) with
+           | .ok b => !b | _ => false)
+        | _ => false
+    | _ => false
+
+-- one key: a placeholder remains, rejected; the second key: accepted; either order leaves the same bytes
+#guard exKeys.length == 3 && exCross
+#guard !exValid .bare (exRun .bare [[33]]) && exValid .bare (exRun .bare [[33], [11]]) &&
+  exRun .bare [[33], [11]] == exRun .bare [[11], [33]] && exValid .p2shP2wsh (exRun .p2shP2wsh [[22], [11, 22]])
+-- the model's template recogniser reads the scripts of this file, with `OP_n` and with one-byte-push counts
+#guard classify (multisigScriptN 2 exKeys) == some (.multisig 2 exKeys)
+#guard classify (multisigScriptN 17 (List.replicate 18 (exKeys.headD []))) == some (.multisig 17 (List.replicate 18 (exKeys.headD [])))
+-- n = 17 under the full standard flag set (MINIMALDATA included): `01 11` is accepted, `OP_1 … OP_16` cannot say 17
+#guard verifyScript (fun _ _ _ _ => true) (pushesOf [[], List.replicate 9 0x30])
+    (multisigScriptN 1 (List.replicate 17 (List.replicate 33 2))) [] (Flags.ofBits 0x40) ⟨1, 0, 0⟩ == none
+
+end nonvacuity
 
 section digests
 open Pycoin.Sighash
